@@ -346,10 +346,27 @@ def run(chk, S: Session):
         except ValueError:
             continue
         node = gm.functions[fname]
-        tabs = literal_tables(node)
         where = f"{gm.relpath}:{node.lineno}"
-        if set(tabs) != {"pade_coeffs", "legendre_coeffs", "legendre_norms"}:
-            raise AnalysisError(f"{fname}: literal tables not found ({sorted(tabs)})")
+        # the literal tables are found by their *role* in the initialiser (not by variable name):
+        # the flat table feeding eA = solve(V-U, V+U) is the Pade table, the nested one the Legendre table, the other flat one the norms
+        it0 = S.interp()
+        pl0 = it0.call(it0.function_value(f"{GRAM}.{fname}"), [], {}, "<harness>")
+        if not isinstance(pl0, Rec) or "init" not in pl0.fields:
+            raise AnalysisError(f"{fname} does not return a PadeLegendre record")
+        eA0, chol0 = it0.call(pl0.fields["init"], [A("A"), A("B")], {"solve": A("solve")}, "<harness>")
+        def static_tables(v):
+            out = []
+            for t_ in T.subterms(v):
+                if t_.op == "np.asarray" and isinstance(t_.args[0], (list, tuple)) and not any(isinstance(x, T.Term) for x in T.subterms(list(t_.args[0]))):
+                    out.append(t_.args[0])
+            return out
+        flat_e = [x for x in static_tables(eA0) if not isinstance(x[0], (list, tuple))]
+        all_c = static_tables(chol0)
+        nested = [x for x in all_c if isinstance(x[0], (list, tuple))]
+        flat_c = [x for x in all_c if not isinstance(x[0], (list, tuple)) and x not in flat_e]
+        if len(flat_e) != 1 or len(nested) != 1 or len(flat_c) != 1:
+            raise AnalysisError(f"{fname}: literal tables not identified by role (pade {len(flat_e)}, legendre {len(nested)}, norms {len(flat_c)})")
+        tabs = {"pade_coeffs": list(flat_e[0]), "legendre_coeffs": [list(r) for r in nested[0]], "legendre_norms": list(flat_c[0])}
         pc, lc, ln = tabs["pade_coeffs"], tabs["legendre_coeffs"], tabs["legendre_norms"]
         bn = pade_normalised(q)
         r1.require(len(pc) == q + 1 and len(lc) == q + 1 and all(len(r) == q + 1 for r in lc) and len(ln) == q + 1, f"{fname} table sizes", f"(q+1) = {q + 1} everywhere", f"sizes {len(pc)}, {len(lc)}x{[len(r) for r in lc]}, {len(ln)}", where)
